@@ -426,7 +426,17 @@ class DigestOut:
     def as_sbytes(self):
         if self.digest.raw is not None:
             return SBytes.of(self.digest.raw)
-        raise Inconclusive("raw bytes of a symbolic digest")
+        return SBytes((sb.Atom("rawdigest", self.digest),))      # opaque raw digest of symbolic content
+
+    def rust_eq(self, I, other):
+        from .core import peel
+        o = peel(other)
+        if isinstance(o, DigestOut):
+            return sb.digest_eq(self.digest, o.digest, I.w)
+        from ..interp import BufObj, BytesRef
+        if isinstance(o, (BufObj, BytesRef)) and self.digest.raw is not None:
+            return sb.content_eq(SBytes.of(self.digest.raw), o.sb, I.w)
+        raise Inconclusive("comparison of a symbolic digest with raw bytes")
 
 
 def _algo_of_self(selfty):
